@@ -20,6 +20,14 @@ theorem gen_facts_hold :
     AITB.Gen.flpJoinsFinals = true ∧ AITB.Gen.mdpZeroSkipSites = 3 ∧ AITB.Gen.gveAppendsAndSumsAllMatches = true := by
   decide
 
+/-- the shared helpers one level below the two builders still have the bodies their models were written from:
+    `checkEqualSmall` (|a − b| ≤ tolerance: `isZeroSmall`), `join(S, tag, actionTag)` (`joinTag`), the `toIndexPartial` overload
+    `removeFactor` calls (`toIndexPartial`), `PartialFactorsEnumerator::advance` (`toFactors (sel nb A) jvID`) -/
+theorem helper_facts_hold :
+    AITB.Gen.helperCheckEqualSmallIsAbsLe = true ∧ AITB.Gen.helperJoinKeysOffsetsByS = true ∧
+    AITB.Gen.helperToIndexPartialPF = true ∧ AITB.Gen.helperEnumeratorAdvance = true := by
+  decide
+
 /-- the variant of the MDP final rows the driver uses is the one the source has -/
 theorem mdpFinalRows_variant (finals : List Nat) :
     mdpFinalRows AITB.Gen.mdpJoinsFinals finals
